@@ -107,6 +107,8 @@ class Counted:
         self.order: dict[bytes, int] = {}  # distinct real points in order of first call (functions and Jacobians)
         self.nan_rule = None
         self.raise_rule = None
+        self.raised_keys: set[bytes] = set()
+        self.nan_keys: set[bytes] = set()
 
     # ----- rules
     def _hits(self, rule, x, key) -> bool:
@@ -136,10 +138,12 @@ class Counted:
         key, is_complex = self._record("f", x)
         if not is_complex and self._hits(self.raise_rule, x, key):
             self.state["raised"] += 1
+            self.raised_keys.add(key)
             raise ValueError("harness: the function refuses this point")
         value = self.poly.func(x)
         if not is_complex and self._hits(self.nan_rule, x, key):
             self.state["nan_returned"] += 1
+            self.nan_keys.add(key)
             return value * float("nan")
         return value
 
@@ -156,8 +160,8 @@ class Counted:
                 out[key] = np.frombuffer(key, dtype=float)
         return out
 
-    def n_value_calls_at(self, key: bytes, start: int = 0) -> int:
-        return sum(1 for kind, k, c in self.calls[start:] if kind == "f" and k == key and not c)
+    def n_calls_at(self, key: bytes, kind: str = "f", start: int = 0) -> int:
+        return sum(1 for kd, k, c in self.calls[start:] if kd == kind and k == key and not c)
 
 
 def _capped_linear_function(counted: Counted):
@@ -308,6 +312,13 @@ def _rule(draw, n_functions: int, max_k: int):
             "level": draw(st.integers(1, 7)), "side": draw(st.sampled_from([-1, 1]))}
 
 
+# preconditions of the wrapped libraries that ALGORITHM_INFOS does not declare
+MIN_DIMENSION = {"NLOPT_NEWUOA": 2}  # NLopt: "dimension 1 must be >= 2"
+# NLopt's bound-constrained NEWUOA spends 30-90 s inside its own C code when GEMSEO forces a stop at or after the last
+# point of the initial interpolation set (2*dim+1 points; measured: dim 2 max_iter 4, 5, 21; dim 3 max_iter 6, 21) with
+# all NLopt tolerances set to 0 by the wrapper: its budgets are kept inside that phase (max_iter <= 2*dim-1)
+SLOW_AFTER_INITIALISATION = ("NLOPT_NEWUOA",)
+
 SUB_ALGOS_GRADIENT = ["SLSQP", "L-BFGS-B", "NLOPT_SLSQP"]
 SUB_ALGOS_ANY = ["SLSQP", "L-BFGS-B", "NLOPT_COBYLA", "NELDER-MEAD"]
 
@@ -326,7 +337,7 @@ def opt_cases(draw, caps: dict, names: list, second_names: list | None = None):
     if not linear and not cap["composite"] and draw(st.integers(0, 5)) == 0:
         diff = draw(st.sampled_from(["finite_differences", "finite_differences", "centered_differences", "complex_step"]))
     use_int = cap["int"] and not cap["composite"] and diff == "user" and draw(st.integers(0, 2)) == 0
-    space = draw(bounded_spaces(max_dim=3 if (cap["global"] or cap["composite"]) else 4, min_dim=1,
+    space = draw(bounded_spaces(max_dim=3 if (cap["global"] or cap["composite"]) else 4, min_dim=MIN_DIMENSION.get(algo, 1),
                                 allow_integer=use_int, all_integer_ok=False))
     n_in = space_dimension(space)
     kinds = ("mdo_linear",) if linear else ("quad", "quad", "affine")
@@ -341,14 +352,24 @@ def opt_cases(draw, caps: dict, names: list, second_names: list | None = None):
     types = [t for t, ok in (("ineq", cap["ineq"]), ("eq", cap["eq"])) if ok]
     n_cons = draw(st.integers(0, 2)) if types else 0
     cons = []
+    eq_left = n_in  # NLopt's SLSQP fails ("workspace is too small") with more equality components than variables
     for k in range(n_cons):
         ctype = draw(st.sampled_from(types))
+        if ctype == "eq" and eq_left == 0:
+            if "ineq" not in types:
+                continue
+            ctype = "ineq"
         name = ("g" if ctype == "ineq" else "h") + str(k + 1)
-        fs = draw(function_specs(n_in, name, kinds=kinds, max_dim=2))
+        fs = draw(function_specs(n_in, name, kinds=kinds, max_dim=min(2, eq_left) if ctype == "eq" else 2))
         fs["jac"] = "dense"
+        if ctype == "eq":
+            eq_left -= int(fs["dim"])
         cons.append({"type": ctype, "spec": fs})
+    n_cons = len(cons)
     n_max = 10 if (cap["global"] or cap["composite"]) else 25
-    n_iter = draw(st.one_of(st.integers(1, 6), st.integers(1, n_max)))
+    if algo in SLOW_AFTER_INITIALISATION:
+        n_max = 2 * n_in - 1
+    n_iter = draw(st.one_of(st.integers(1, min(6, n_max)), st.integers(1, n_max)))
     nan = None
     if stop == "nan" and not linear:
         nan = _rule(draw, 1 + n_cons, max(1, min(n_iter, 6)))
@@ -359,7 +380,7 @@ def opt_cases(draw, caps: dict, names: list, second_names: list | None = None):
     }
     settings = {
         "normalize_design_space": draw(st.booleans()) and algo != "MNBI",
-        "use_database": draw(st.integers(0, 7)) > 0 or cap["composite"] or cap["linear_only"],
+        "use_database": draw(st.integers(0, 7)) > 0 or cap["composite"] or cap["linear_only"] or cap["global"],
         "round_ints": draw(st.integers(0, 3)) > 0,
         "store_jacobian": draw(st.integers(0, 4)) > 0,
         "eq_tolerance": draw(st.sampled_from([1e-2, 1e-6])),
@@ -390,7 +411,8 @@ def opt_cases(draw, caps: dict, names: list, second_names: list | None = None):
         extra = {"seed": seed}
     second = None
     if draw(st.integers(0, 2)) == 0 and not cap["composite"]:
-        pool = [n for n in (second_names or names) if _second_is_compatible(caps[n], cap, problem, use_int)]
+        pool = [n for n in (second_names or names) if _second_is_compatible(caps[n], cap, problem, use_int)
+                and n not in SLOW_AFTER_INITIALISATION and n_in >= MIN_DIMENSION.get(n, 1)]
         if pool:
             second = {"algo": draw(st.sampled_from(sorted(pool))), "max_iter": draw(st.integers(1, n_max)),
                       "reset": draw(st.booleans())}
@@ -400,7 +422,7 @@ def opt_cases(draw, caps: dict, names: list, second_names: list | None = None):
 
 def _second_is_compatible(cap2, cap1, problem, use_int) -> bool:
     """The second algorithm must accept the same problem (and is not a composite or a global one: budgets differ)."""
-    if cap2["composite"] or cap2["multi"] and False:
+    if cap2["composite"]:
         return False
     types = {c["type"] for c in problem["cons"]}
     if "eq" in types and not cap2["eq"] or "ineq" in types and not cap2["ineq"]:
@@ -502,3 +524,16 @@ def doe_cases(draw, caps: dict, names: list):
         "use_database": True,
         "second": second,
     }
+
+
+def custom_samples(space: SpaceModel, rows) -> np.ndarray:
+    """Physical samples of a CustomDOE from level rows (0-8 per component; integer components stay integral)."""
+    out = np.zeros((len(rows), space.dim))
+    for r, row in enumerate(rows):
+        for i, level in enumerate(row):
+            lb, ub = space.lb[i], space.ub[i]
+            if space.is_int[i]:
+                out[r, i] = lb + (int(level) % (int(ub - lb) + 1))
+            else:
+                out[r, i] = lb + (int(level) / 8.0) * (ub - lb)
+    return out
